@@ -365,6 +365,32 @@ func TestVerifC13_WireRoundTripJunk(t *testing.T) {
 		var trace []string
 		var cls = map[string]bool{}
 		maxLen, junkN, zeroN, validN := 0, 0, 0, 0
+		// recorded when the case ends, also when it ends in a failure
+		defer func() {
+			var cl []string
+			for k := range cls {
+				cl = append(cl, k)
+			}
+			sort.Strings(cl)
+			switch {
+			case maxLen >= 2039:
+				cl = append(cl, "len>=2039")
+			case maxLen >= 33:
+				cl = append(cl, "len33..2038")
+			case maxLen >= 1:
+				cl = append(cl, "len1..32")
+			}
+			if len(key) > 64 {
+				cl = append(cl, "key>64")
+			}
+			if len(key) == 4 {
+				cl = append(cl, "key=4")
+			}
+			nt := validN > 0 && (maxLen >= 33 || junkN > 0)
+			st.Case(nt, fmt.Sprintf("k%d|%s", len(key), strings.Join(trace, ",")), cl, func() string {
+				return fmt.Sprintf("key=%d bytes; %s", len(key), strings.Join(trace, " "))
+			})
+		}()
 
 		// one read on end e, compared with the model queue
 		read := func(e *v13End) (done bool) {
@@ -529,29 +555,6 @@ func TestVerifC13_WireRoundTripJunk(t *testing.T) {
 				}
 			}
 		}
-		var cl []string
-		for k := range cls {
-			cl = append(cl, k)
-		}
-		sort.Strings(cl)
-		switch {
-		case maxLen >= 2039:
-			cl = append(cl, "len>=2039")
-		case maxLen >= 33:
-			cl = append(cl, "len33..2038")
-		case maxLen >= 1:
-			cl = append(cl, "len1..32")
-		}
-		if len(key) > 64 {
-			cl = append(cl, "key>64")
-		}
-		if len(key) == 4 {
-			cl = append(cl, "key=4")
-		}
-		nt := validN > 0 && (maxLen >= 33 || junkN > 0)
-		st.Case(nt, fmt.Sprintf("k%d|%s", len(key), strings.Join(trace, ",")), cl, func() string {
-			return fmt.Sprintf("key=%d bytes; %s", len(key), strings.Join(trace, " "))
-		})
 	})
 }
 
